@@ -48,6 +48,9 @@ class VM:
         if dim is not None and callee is None:
             if name in PLUS:
                 return ("delta", [unit(dim, 1)])
+            if name in ("pop", "pop_back", "pop_front"):
+                # Option-returning: one element less exactly when the result is Some
+                return ("delta_tagged", [(unit(dim, -1), "Some"), (tuple([0] * len(DIMS)), "None")])
             if name in MINUS:
                 return ("delta", [unit(dim, -1)])
             if name in CLOBBER:
